@@ -45,8 +45,32 @@ pub enum Entry {
     /// (`abs_last`: timeout(d) then deadline(t); otherwise deadline(t') then
     /// timeout(d))
     BuilderOverride { abs_last: bool, nanos: u64 },
+    /// one configured builder (`timeout(d)`) used for two diffs while virtual
+    /// time jumps forward by more than `d` in between: the timeout is relative
+    /// to each diff, so both must give the no-deadline result
+    BuilderReuse { nanos: u64, gap_ns: u64 },
+    /// The shipped, non-simulated time arithmetic below the seam, in the only
+    /// configurations whose outcome does not depend on what the real clock
+    /// reads: a deadline in the past (must equal simulated expiry at probe 0),
+    /// a deadline an hour ahead (must equal no deadline), and timeouts too
+    /// large for an `Instant` (must mean no deadline, not a panic).
+    RealClock { kind: RealKind },
+    /// Work clock on unrelated inputs: virtual time is the number of element
+    /// comparisons made, so time runs out *between* two deadline checks.  For
+    /// inputs over disjoint alphabets the correct code does at most about one
+    /// row / one D-iteration (<= N+M+4 comparisons) between two checks, so
+    /// the work after the true expiry instant must stay linear.
+    WorkClock { budgets_permille: Vec<u32> },
     /// TextDiff::configure().timeout(d) under the cost-model clock
     CostTimeout { dur: DurKind, seed: u64, profile: u8 },
+}
+
+#[derive(Clone, Copy, Debug, Serialize, Deserialize, PartialEq)]
+pub enum RealKind {
+    Past,
+    FarFuture,
+    TimeoutMax,
+    TimeoutHugeSecs,
 }
 
 #[derive(Clone, Copy, Debug, Serialize, Deserialize, PartialEq)]
@@ -87,6 +111,7 @@ pub struct RawRun {
     pub probes: u64,
     pub first_expired: Option<u64>,
     pub cmps_after: Option<u64>,
+    pub cmps_at_probe: Option<u64>,
     pub asked: Vec<u64>,
     pub none_probes: u64,
     pub clock_dig: u64,
@@ -139,6 +164,7 @@ pub fn raw_exec2(seq: &SeqCase, slices: bool, deadline: bool, sched: Sched) -> R
         probes: st.probes,
         first_expired: st.first_expired,
         cmps_after: st.cmps_at_expiry.map(|c| total - c),
+        cmps_at_probe: st.cmps_at_expiry,
         asked: st.asked.clone(),
         none_probes: similar::verif::none_probes() - np0,
         clock_dig: st.dig.finish(),
@@ -278,6 +304,41 @@ pub fn builder_exec(seq: &SeqCase, lines: bool, dl: Dl, sched: Sched) -> Result<
     Ok(cap_from(ops, &st, np0))
 }
 
+/// One configured builder used for two diffs, with virtual time jumping
+/// forward by `gap_ns` in between.
+pub fn builder_reuse_exec(
+    seq: &SeqCase,
+    nanos: u64,
+    gap_ns: u64,
+) -> Result<(Vec<Op>, Vec<Op>, CapRun), String> {
+    let ot = tokens(seq.old_core());
+    let nt = tokens(seq.new_core());
+    let clock = SimClock::new(Sched::Cost { seed: gap_ns ^ nanos, profile: 0 });
+    let _guard = SimGuard::new(Some(clock.clone()), seq.hasher);
+    let _ = similar::verif::take_hits();
+    let np0 = similar::verif::none_probes();
+    let alg = seq.alg.to();
+    let clock2 = clock.clone();
+    let (a, b) = guarded(move || {
+        let o: Vec<&str> = ot.iter().map(|s| s.as_str()).collect();
+        let n: Vec<&str> = nt.iter().map(|s| s.as_str()).collect();
+        let mut cfg = TextDiff::configure();
+        cfg.algorithm(alg);
+        cfg.timeout(Duration::from_nanos(nanos));
+        let a = ops_of(cfg.diff_slices(&o, &n).ops());
+        // time passes between the two uses of the configured builder
+        {
+            let mut st = clock2.borrow_mut();
+            st.now_ns = st.now_ns.saturating_add(gap_ns);
+            st.jumps += 1;
+        }
+        let b = ops_of(cfg.diff_slices(&o, &n).ops());
+        (a, b)
+    })?;
+    let st = clock.borrow();
+    Ok((a, b, cap_from(Vec::new(), &st, np0)))
+}
+
 /// What the builder must be equal to: the capture function on the same
 /// tokens (through the integer mapping above 100 tokens, as the builder does).
 pub fn direct_exec(seq: &SeqCase, deadline: bool, sched: Sched) -> Result<CapRun, String> {
@@ -349,6 +410,7 @@ pub const F_JUMP: usize = 4;
 pub const F_OVERFLOW: usize = 5;
 pub const F_ZERO: usize = 6;
 pub const F_COSTEXP: usize = 7;
+pub const F_WORK_EXPIRED: usize = 8;
 
 impl C07 {
     fn exec_inner(&self, case: &Case, out: &mut RunOut) -> Result<(), Fail> {
@@ -392,6 +454,7 @@ impl C07 {
                         clause: f.clause,
                         detail: format!("k={}: {}", k, f.detail),
                     };
+                    crate::engine::trace(|| format!("raw {:?} k={} of K={}: probes={} first_expired={:?} cmps_after_expiry={:?} calls={:?}", seq.alg, k, kmax, run.probes, run.first_expired, run.cmps_after, run.calls));
                     if run.result.is_err() {
                         return fail("c07.ok", format!("k={}: diff returned an error", k));
                     }
@@ -484,6 +547,7 @@ impl C07 {
                         detail: format!("k={}: {}", k, m),
                     })?;
                     out.execs += 1;
+                    crate::engine::trace(|| format!("capture {:?} k={} of K={}: probes={} first_expired={:?} ops={:?}", seq.alg, k, kmax, run.probes, run.first_expired, run.ops));
                     walk_ops(&run.ops, &seq.old, &seq.new, seq.or(), seq.nr()).map_err(|f| {
                         Fail {
                             clause: f.clause,
@@ -586,6 +650,7 @@ impl C07 {
                         detail: format!("k={}: direct: {}", k, m),
                     })?;
                     out.execs += 2;
+                    crate::engine::trace(|| format!("builder {:?} k={} of K={}: probes={} asked={:?} now_reads={} ops={:?}", core.alg, k, kmax, run.probes, run.asked, run.now_plus_calls, run.ops));
                     walk_ops(&run.ops, &core.old, &core.new, core.or(), core.nr()).map_err(|f| {
                         Fail {
                             clause: f.clause,
@@ -650,6 +715,200 @@ impl C07 {
                     }
                 }
             }
+            Entry::WorkClock { budgets_permille } => {
+                let dry = raw_exec(seq, true, Sched::Never).map_err(|m| Fail {
+                    clause: "c07.panic",
+                    detail: m,
+                })?;
+                out.execs += 1;
+                // comparisons of the complete run
+                let total = {
+                    let oldc = counted(&seq.old);
+                    let newc = counted(&seq.new);
+                    let _g = SimGuard::new(Some(SimClock::new(Sched::Never)), seq.hasher);
+                    reset_cmps();
+                    let mut h = RecHook::<true>::new(None);
+                    let alg = seq.alg.to();
+                    let _ = guarded(|| {
+                        with_lookups!(seq, oldc, newc, |o, n| diff_deadline(
+                            alg,
+                            &mut h,
+                            o,
+                            seq.or(),
+                            n,
+                            seq.nr(),
+                            Some(instant_at(DL))
+                        ))
+                    });
+                    cmps()
+                };
+                out.gauge("work_clock_max_total_cmps", total);
+                for pm in budgets_permille {
+                    let budget = total * (*pm as u64) / 1000;
+                    let run = raw_exec(seq, true, Sched::Work { budget }).map_err(|m| Fail {
+                        clause: "c07.panic",
+                        detail: format!("work budget {}: {}", budget, m),
+                    })?;
+                    out.execs += 1;
+                    walk_raw(&run.calls, &seq.old, &seq.new, seq.or(), seq.nr(), true).map_err(
+                        |f| Fail {
+                            clause: f.clause,
+                            detail: format!("work budget {}: {}", budget, f.detail),
+                        },
+                    )?;
+                    match (run.first_expired, run.cmps_after) {
+                        (Some(_), Some(after_probe)) => {
+                            // total comparisons of this run = comparisons at
+                            // the expiring probe + after it
+                            let st_total = after_probe + run.cmps_at_probe.unwrap_or(0);
+                            let after_true_expiry = st_total.saturating_sub(budget);
+                            let bound = 4 * (seq.n() + seq.m() + 4) as u64;
+                            out.gauge(
+                                "work_clock_max_cmps_after_true_expiry_x1000_per_nm4",
+                                after_true_expiry * 1000 / (seq.n() + seq.m() + 4) as u64,
+                            );
+                            crate::engine::trace(|| format!("work clock {:?} N={} M={}: time runs out after {} of {} comparisons; noticed at probe {:?} after {} comparisons; {} comparisons after the true expiry (bound {})", seq.alg, seq.n(), seq.m(), budget, total, run.first_expired, run.cmps_at_probe.unwrap_or(0), after_true_expiry, bound));
+                            if after_true_expiry > bound {
+                                return fail(
+                                    "c07.prompt_between_checks",
+                                    format!(
+                                        "unrelated inputs N={} M={}: time ran out after {} comparisons, {} more were made ({} of them before the next deadline check), bound {}",
+                                        seq.n(), seq.m(), budget, after_true_expiry,
+                                        run.cmps_at_probe.unwrap_or(0).saturating_sub(budget), bound
+                                    ),
+                                );
+                            }
+                            out.faults[F_WORK_EXPIRED] += 1;
+                            let mut d = Dig::new();
+                            d.add_all(&[500 + seq.alg.code(), budget]);
+                            digest_calls(&mut d, &run.calls);
+                            out.nontrivial_digests.push(d.finish());
+                        }
+                        _ => {
+                            if run.calls != dry.calls {
+                                return fail(
+                                    "c07.never_expiring_equals_none",
+                                    format!("work budget {}: never expired but stream differs", budget),
+                                );
+                            }
+                            out.faults[F_NEVER] += 1;
+                        }
+                    }
+                    dig.add(budget);
+                    digest_calls(&mut dig, &run.calls);
+                }
+            }
+            Entry::BuilderReuse { nanos, gap_ns } => {
+                let core = core_case(seq);
+                let none = builder_exec(&core, false, Dl::None, Sched::Never).map_err(|m| Fail {
+                    clause: "c07.panic_no_deadline",
+                    detail: m,
+                })?;
+                let (a, b, run) = builder_reuse_exec(&core, *nanos, *gap_ns).map_err(|m| Fail {
+                    clause: "c07.panic",
+                    detail: format!("builder reuse: {}", m),
+                })?;
+                out.execs += 3;
+                out.virt_ns += run.virt_ns;
+                out.faults[F_JUMP] += run.jumps;
+                crate::engine::trace(|| format!("builder reuse {:?}: timeout {} ns, {} ns pass between two diffs: now reads={} deadlines handed out={:?} asked={:?} first_expired={:?}", core.alg, nanos, gap_ns, run.now_plus_calls, run.given, run.asked, run.first_expired));
+                walk_ops(&a, &core.old, &core.new, core.or(), core.nr())?;
+                walk_ops(&b, &core.old, &core.new, core.or(), core.nr())?;
+                if run.now_plus_calls != 2 || run.asked.iter().any(|x| !run.given.contains(x)) {
+                    return fail(
+                        "c07.timeout_relative_to_each_diff",
+                        format!(
+                            "timeout({} ns) on a builder used twice with {} ns in between: converted {} times (expected once per diff), deadlines handed out {:?}, asked {:?}",
+                            nanos, gap_ns, run.now_plus_calls, run.given, run.asked
+                        ),
+                    );
+                }
+                if run.first_expired.is_none() && (a != none.ops || b != none.ops) {
+                    return fail(
+                        "c07.never_expiring_equals_none",
+                        "reused builder: deadline never expired but ops differ from no deadline".into(),
+                    );
+                }
+                if run.first_expired.is_some() {
+                    return fail(
+                        "c07.timeout_relative_to_each_diff",
+                        format!(
+                            "timeout({} ns) expired at probe {:?} although each diff takes far less virtual time ({} ns passed between the two diffs)",
+                            nanos, run.first_expired, gap_ns
+                        ),
+                    );
+                }
+                out.count("builder_reused_across_time_jump", 1);
+                digest_ops(&mut dig, &a);
+                digest_ops(&mut dig, &b);
+                dig.add(run.clock_dig);
+            }
+            Entry::RealClock { kind } => {
+                let core = core_case(seq);
+                let none = builder_exec(&core, false, Dl::None, Sched::Never).map_err(|m| Fail {
+                    clause: "c07.panic_no_deadline",
+                    detail: m,
+                })?;
+                let expired = direct_exec(&core, true, Sched::Indexed(0)).map_err(|m| Fail {
+                    clause: "c07.panic",
+                    detail: m,
+                })?;
+                // no simulated clock, not strict: the real seam code runs
+                let ot = tokens(core.old_core());
+                let nt = tokens(core.new_core());
+                similar::verif::set_hasher(Some(core.hasher));
+                let real = guarded(|| {
+                    let o: Vec<&str> = ot.iter().map(|s| s.as_str()).collect();
+                    let n: Vec<&str> = nt.iter().map(|s| s.as_str()).collect();
+                    let mut cfg = TextDiff::configure();
+                    cfg.algorithm(core.alg.to());
+                    let t0 = instant_at(0);
+                    match kind {
+                        RealKind::Past => {
+                            cfg.deadline(t0.checked_sub(Duration::from_secs(1)).unwrap_or(t0));
+                        }
+                        RealKind::FarFuture => {
+                            cfg.deadline(std::time::Instant::now() + Duration::from_secs(3600));
+                        }
+                        RealKind::TimeoutMax => {
+                            cfg.timeout(Duration::MAX);
+                        }
+                        RealKind::TimeoutHugeSecs => {
+                            cfg.timeout(Duration::from_secs(u64::MAX));
+                        }
+                    }
+                    ops_of(cfg.diff_slices(&o, &n).ops())
+                });
+                similar::verif::set_hasher(None);
+                out.execs += 3;
+                let real = real.map_err(|m| Fail {
+                    clause: "c07.real_clock_panic",
+                    detail: format!("{:?}: {}", kind, m),
+                })?;
+                walk_ops(&real, &core.old, &core.new, core.or(), core.nr())?;
+                let expect = if *kind == RealKind::Past { &expired.ops } else { &none.ops };
+                if &real != expect {
+                    return fail(
+                        "c07.real_clock_seam",
+                        format!(
+                            "{:?}: real-clock result {:?} differs from the simulated {} result {:?}",
+                            kind,
+                            real,
+                            if *kind == RealKind::Past { "expired-at-probe-0" } else { "no-deadline" },
+                            expect
+                        ),
+                    );
+                }
+                out.count("real_clock_passthrough", 1);
+                if *kind == RealKind::Past && expired.probes > 0 {
+                    let mut d = Dig::new();
+                    d.add(400 + core.alg.code());
+                    digest_ops(&mut d, &real);
+                    out.nontrivial_digests.push(d.finish());
+                    out.faults[F_EXP0] += 1;
+                }
+                digest_ops(&mut dig, &real);
+            }
             Entry::CostTimeout { dur, seed, profile } => {
                 let core = core_case(seq);
                 let none = builder_exec(&core, false, Dl::None, Sched::Never).map_err(|m| Fail {
@@ -668,6 +927,7 @@ impl C07 {
                 out.virt_ns += run.virt_ns;
                 out.faults[F_STALL] += run.stalls;
                 out.faults[F_JUMP] += run.jumps;
+                crate::engine::trace(|| format!("cost-model clock {:?}: timeout={:?} probes={} first_expired={:?} virtual_ns={} stalls={} jumps={} given={:?} asked={:?} ops={:?}", core.alg, dur, run.probes, run.first_expired, run.virt_ns, run.stalls, run.jumps, run.given, run.asked, run.ops));
                 walk_ops(&run.ops, &core.old, &core.new, core.or(), core.nr())?;
                 if run.non_monotone > 0 {
                     return fail(
@@ -764,6 +1024,7 @@ impl Prop for C07 {
             "timeout_overflow(Duration::MAX)",
             "timeout_zero",
             "expiry_under_cost_model_clock",
+            "expiry_between_two_checks(work clock)",
         ]
     }
     fn components(&self) -> Value {
@@ -800,9 +1061,44 @@ impl Prop for C07 {
             },
         };
         let seq = gen_seq_case(rng, size, None);
-        let entry = match rng.weighted(&[50, 20, 10, 8, 10, 4, 5, 5]) {
+        let mut seq = seq;
+        let entry_pick = rng.weighted(&[50, 20, 10, 8, 10, 4, 5, 5, 4, 6, 3]);
+        if entry_pick == 9 {
+            // unrelated inputs, plain lookups, ordinary hasher
+            let (lo, hi) = match tier {
+                Tier::Quick => (20, 400),
+                Tier::Thorough => (20, 1500),
+            };
+            let n = rng.range(lo, hi);
+            let m = rng.range(lo, hi);
+            let (o, nn) = crate::gen::gen_disjoint(rng, n, m);
+            seq.old = o;
+            seq.new = nn;
+            seq.old_range = (0, n);
+            seq.new_range = (0, m);
+            seq.index = IndexKind::Slice;
+            seq.hasher = (0, rng.next());
+        }
+        let entry = match entry_pick {
             0 => Entry::Raw,
             1 => Entry::Capture,
+            10 => Entry::BuilderReuse {
+                // a diff of these sizes makes < 20 000 probes of < 50 virtual
+                // ns each: one virtual second cannot run out inside one diff
+                nanos: 1_000_000_000 + rng.below(1_000_000_000),
+                gap_ns: rng.below(5_000_000_000),
+            },
+            9 => Entry::WorkClock {
+                budgets_permille: (0..6).map(|_| rng.below(1000) as u32).collect(),
+            },
+            8 => Entry::RealClock {
+                kind: *rng.pick(&[
+                    RealKind::Past,
+                    RealKind::FarFuture,
+                    RealKind::TimeoutMax,
+                    RealKind::TimeoutHugeSecs,
+                ]),
+            },
             6 => Entry::RawSlices,
             7 => Entry::CaptureSlices,
             2 => Entry::BuilderDeadline {
@@ -940,6 +1236,9 @@ impl Prop for C07 {
             ("builder_over_100_tokens_with_expiry", c("builder_over_100_tokens_with_expiry")),
             ("timeout_overflow_no_deadline", agg.faults[F_OVERFLOW]),
             ("builder_both_setters", c("builder_both_setters")),
+            ("real_clock_passthrough", c("real_clock_passthrough")),
+            ("expiry_between_two_checks", agg.faults[F_WORK_EXPIRED]),
+            ("builder_reused_across_time_jump", c("builder_reused_across_time_jump")),
         ]
     }
 }
